@@ -81,7 +81,7 @@ PROPS['C06'] = {
     'quick_configs': ['default'],
     'thorough_configs': ALL,
     'controls': [],
-    'floors': {'default': {'V0': 100, 'V1': 10, 'V2': 6, 'V3': 1, 'V4': 10, 'V5': 6, 'FT1': 1, 'SB1': 1, 'SB2': 1, 'V6': 2}},
+    'floors': {'default': {'V0': 100, 'V1': 10, 'V2': 6, 'V3': 1, 'V4': 10, 'V5': 3, 'FT1': 1, 'SB1': 1, 'SB2': 1, 'V6': 2}},
     'rule_text': 'one obligation per device write of format_volume (dominated by the Ok edge of format_boot_sector and the '
                  'accepting edge of the strict self-validation: V1), per error construction in the layout code (only '
                  'InvalidInput; the validation failure is re-labelled InvalidInput: V2), the boot-sector copies (one '
